@@ -518,6 +518,45 @@ Proof.
   split; [now apply nodup_names_iff|]. now apply forallb_forall.
 Qed.
 
+Lemma visit_name_vis proj pc loc es sub n :
+  visible n = true ->
+  visit_name proj pc loc es sub n =
+  match find_entry n es with
+  | None => VErr
+  | Some (Dir _ _) =>
+    if in_opt n pc then VSkip
+    else match assoc_get n sub with
+         | Some (RNode nd) => VSub nd
+         | Some RErr => VErr
+         | _ => VSkip
+         end
+  | Some (File _ titled ord cp) =>
+    if is_md n then (if titled then VSub (leaf proj loc n ord cp) else VSkip) else VFile n
+  end.
+Proof.
+  unfold visible, visit_name. destruct n; [discriminate|].
+  intros H. apply andb_true_iff in H as [H1 H2]. apply negb_true_iff in H1, H2.
+  now rewrite H1, H2.
+Qed.
+
+Lemma visit_name_invis proj pc loc es sub n :
+  visible n = false ->
+  visit_name proj pc loc es sub n = VErr \/ visit_name proj pc loc es sub n = VSkip.
+Proof.
+  unfold visible, visit_name. destruct n; auto.
+  destruct (hidden (a :: n)); auto. destruct (backup (a :: n)); auto. discriminate.
+Qed.
+
+Lemma find_entry_in es x : NoDup (map ename es) -> In x es -> find_entry (ename x) es = Some x.
+Proof.
+  induction es as [|z es IH]; intros Hnd Hin; [destruct Hin|].
+  destruct Hin as [->|Hin]; simpl.
+  - now rewrite str_eqb_refl.
+  - inversion Hnd as [|? ? Hz Hnd']; subst.
+    destruct (str_eqb (ename x) (ename z)) eqn:E; auto.
+    apply str_eqb_eq in E. exfalso. apply Hz. rewrite <- E. now apply in_map.
+Qed.
+
 (* ------------------------------------------------------------------------------------------ *)
 (* C17_mirror *)
 Definition mirror_at (skip : list str -> bool) (proj : list str) (e : entry) : Prop :=
@@ -553,15 +592,12 @@ Proof.
   { unfold M in Hn. rewrite order_documented in Hn by auto.
     apply filter_In in Hn as [_ Hn]. unfold not_idx in Hn. now rewrite str_eqb_sym. }
   rewrite Hni, andb_true_r.
-  unfold visit_name in *. destruct n as [|c0 n']; [congruence|].
-  set (n := c0 :: n') in *.
-  unfold visible. fold n.
-  destruct (hidden n) eqn:Hh; [reflexivity|].
-  destruct (backup n) eqn:Hb; [reflexivity|]. simpl negb. simpl andb.
-  assert (Hvis : visible n = true) by (unfold visible; fold n; now rewrite Hh, Hb).
-  rewrite assoc_map_find.
+  destruct (visible n) eqn:Hvis.
+  2:{ destruct (visit_name_invis proj pc loc es sub n Hvis) as [X|X]; [congruence|now rewrite X]. }
+  rewrite visit_name_vis in * by auto.
+  unfold sub in *. rewrite !assoc_map_find in *.
   destruct (find_entry n es) as [x|] eqn:FE; [|congruence].
-  apply find_entry_name in FE as [En Hin]. simpl option_map.
+  apply find_entry_name in FE as [En Hin]. simpl option_map in *.
   assert (Hpx : plain_names x = true).
   { simpl in Hplain. eapply forallb_forall in Hplain; eauto. }
   pose proof (proj1 (forallb_forall _ _) Hreg x Hin) as Hrx.
@@ -573,22 +609,7 @@ Proof.
     simpl in Hpx. rewrite (md_name_visible _ Hvis), MD in Hpx. simpl in Hpx.
     apply str_eqb_eq in Hpx. unfold pg, src_path, out_path. simpl. now rewrite Hpx.
   - (* a sub-directory *)
-    fold n in Hrx. apply andb_true_iff in Hrx as [Hr1 Hr2].
-    unfold sub in *. rewrite assoc_map_find in *.
-    pose proof (find_entry_name n es) as _.
-    assert (FE : find_entry n es = Some (Dir n des)).
-    { destruct (find_entry n es) as [y|] eqn:F.
-      - apply find_entry_name in F as [Ey Hy].
-        (* names are distinct *)
-        clear - Hnd Hin Hy Ey. f_equal.
-        induction es as [|z es IHes]; [destruct Hin|].
-        simpl in Hnd. inversion Hnd as [|? ? Hz Hnd']; subst.
-        destruct Hin as [->|Hin], Hy as [->|Hy]; auto.
-        + exfalso. apply Hz. simpl. rewrite <- Ey. now apply in_map.
-        + exfalso. apply Hz. rewrite Ey. change n with (ename (Dir n des)). now apply in_map.
-      - exfalso. apply find_entry_none in F. apply F.
-        change n with (ename (Dir n des)). now apply in_map. }
-    rewrite FE in *. simpl option_map in *. simpl ename in *.
+    apply andb_true_iff in Hrx as [Hr1 Hr2]. simpl ename in *.
     destruct (has_titled_index (Dir n des)) eqn:HT.
     + simpl in Hr1. apply andb_true_iff in Hr1 as [Hp Hc].
       apply negb_true_iff in Hp, Hc. rewrite Hp in *. fold copy in Hc. rewrite Hc. simpl andb.
@@ -596,9 +617,846 @@ Proof.
       { intros G. rewrite G in Hv. congruence. }
       rewrite Forall_forall in IH.
       rewrite <- (IH _ Hin n des eq_refl (Some copy) (loc ++ [n])); auto.
-      destruct (gpt proj (Some copy) (loc ++ [n]) (Dir n des)); try reflexivity. congruence.
+      destruct (gpt proj (Some copy) (loc ++ [n]) (Dir n des)); reflexivity.
     + simpl in HT. destruct (titled_index des) eqn:TD; [discriminate|].
       rewrite (titled_index_none_gpt _ _ _ _ _ TD).
       rewrite spec_pages_dir, TD.
-      destruct (in_opt n pc), (str_in n (eff_copy proj cp) && skip (loc ++ [n])); reflexivity.
+      destruct (in_opt n pc); destruct (str_in n copy && skip (loc ++ [n])); reflexivity.
+Qed.
+
+(* ------------------------------------------------------------------------------------------ *)
+(* distinct pages have distinct output files *)
+Lemma nodup_app {A} (a b : list A) :
+  NoDup a -> NoDup b -> (forall x, In x a -> ~ In x b) -> NoDup (a ++ b).
+Proof.
+  induction 1 as [|x a Hx Ha IH]; simpl; intros Hb Hd; auto.
+  constructor.
+  - rewrite in_app_iff. intros [H|H]; [auto|]. eapply Hd; eauto.
+  - apply IH; auto.
+Qed.
+
+Lemma nodup_flat_map {A B} (f : A -> list B) l :
+  NoDup l -> (forall x, In x l -> NoDup (f x)) ->
+  (forall x y, In x l -> In y l -> x <> y -> forall z, In z (f x) -> ~ In z (f y)) ->
+  NoDup (flat_map f l).
+Proof.
+  induction 1 as [|x l Hx Hl IH]; simpl; intros Hf Hd; [constructor|].
+  apply nodup_app; auto.
+  - apply IH; auto. intros a b Ha Hb. apply Hd; auto.
+  - intros z Hz Hz'. apply in_flat_map in Hz' as (y & Hy & Hzy).
+    eapply (Hd x y); eauto. congruence.
+Qed.
+
+Lemma spec_order_nodup ord names : NoDup names -> NoDup (spec_order ord names).
+Proof.
+  intros H. unfold spec_order. apply nodup_app.
+  - apply dedup_nodup.
+  - apply sort_nodup. now apply filter_nodup.
+  - intros x Hx Hx'. apply (proj1 (dedup_in _ _)) in Hx. apply sort_in, filter_In in Hx' as [_ Hx'].
+    apply negb_true_iff, str_in_false in Hx'. contradiction.
+Qed.
+
+(* the pages that one name of a directory contributes, in the Spec *)
+Definition spec_contrib (skip : list str -> bool) (proj loc cp : list str) (es : list entry)
+           (n : str) : list (list str * list str) :=
+  if visible n && negb (str_eqb n idx)
+  then match assoc_get n
+               (map (fun x => (ename x,
+                  match x with
+                  | File _ _ _ _ => spec_pages skip proj loc x
+                  | Dir n _ =>
+                    if str_in n (eff_copy proj cp) && skip (loc ++ [n]) then []
+                    else spec_pages skip proj (loc ++ [n]) x
+                  end)) es)
+       with Some l => l | None => [] end
+  else [].
+
+Definition outs_ok (skip : list str -> bool) (proj : list str) (e : entry) : Prop :=
+  forall d es, e = Dir d es -> forall loc, wf_tree e = true ->
+    NoDup (map snd (spec_pages skip proj loc e)) /\
+    forall p, In p (map snd (spec_pages skip proj loc e)) -> exists r, r <> [] /\ p = loc ++ r.
+
+Lemma spec_contrib_shape skip proj loc cp es n p :
+  Forall (outs_ok skip proj) es -> (forall x, In x es -> wf_tree x = true) ->
+  In p (map snd (spec_contrib skip proj loc cp es n)) ->
+  n <> idx /\
+  ((ends_with (s ".md") n = true /\ p = loc ++ [html_name n]) \/
+   (exists r, r <> [] /\ p = loc ++ n :: r)).
+Proof.
+  intros IH Hwf Hp. unfold spec_contrib in Hp.
+  destruct (visible n && negb (str_eqb n idx)) eqn:C; [|destruct Hp].
+  apply andb_true_iff in C as [Hvis Hni]. apply negb_true_iff, str_eqb_neq in Hni.
+  rewrite assoc_map_find in Hp.
+  destruct (find_entry n es) as [x|] eqn:FE; [|destruct Hp].
+  apply find_entry_name in FE as [En Hin]. simpl option_map in Hp.
+  split; auto.
+  destruct x as [f t o c|dn des]; simpl in En; subst.
+  - simpl in Hp. destruct (md_name n && t) eqn:M; [|destruct Hp].
+    apply andb_true_iff in M as [M _]. unfold md_name in M.
+    apply andb_true_iff in M as [M _]. apply andb_true_iff in M as [M _].
+    apply andb_true_iff in M as [M _].
+    destruct Hp as [<-|[]]. left. auto.
+  - destruct (str_in n (eff_copy proj cp) && skip (loc ++ [n])); [destruct Hp|].
+    rewrite Forall_forall in IH.
+    destruct (IH _ Hin n des eq_refl (loc ++ [n]) (Hwf _ Hin)) as [_ Hs].
+    destruct (Hs _ Hp) as (r & Hr & ->). right. exists r. split; auto.
+    now rewrite <- app_assoc.
+Qed.
+
+Lemma outs_ok_all skip proj e : outs_ok skip proj e.
+Proof.
+  induction e as [|d0 es0 IH] using entry_ind'; intros d es E loc Hwf; [discriminate|].
+  injection E as -> ->.
+  rewrite spec_pages_dir.
+  destruct (titled_index es) as [[ord cp]|] eqn:TI; [|split; [constructor|intros ? []]].
+  apply wf_dir in Hwf as [Hnd Hwf].
+  change (flat_map _ (spec_order ord (map ename es)))
+    with (flat_map (spec_contrib skip proj loc cp es) (spec_order ord (map ename es))).
+  split.
+  - simpl. constructor.
+    + (* index.html is not the page of another entry *)
+      intros H. apply in_map_iff in H as ([a b] & Hb & H). simpl in Hb. subst b.
+      apply in_flat_map in H as (n & _ & H).
+      apply (in_map snd) in H. simpl in H.
+      apply spec_contrib_shape in H as [Hni [[Hmd H]|(r & Hr & H)]]; auto.
+      * apply app_inv_head in H. injection H as H.
+        apply Hni. apply html_name_inj; auto.
+      * apply app_inv_head in H. injection H as _ H. congruence.
+    + rewrite flat_map_concat_map, concat_map, map_map, <- flat_map_concat_map.
+      apply nodup_flat_map.
+      * now apply spec_order_nodup.
+      * intros n _. unfold spec_contrib.
+        destruct (visible n && negb (str_eqb n idx)); [|constructor].
+        rewrite assoc_map_find.
+        destruct (find_entry n es) as [x|] eqn:FE; [|constructor].
+        apply find_entry_name in FE as [En Hin]. simpl option_map.
+        destruct x as [f t o c|dn des]; simpl in En; subst.
+        -- simpl. destruct (md_name n && t); simpl; repeat constructor. intros [].
+        -- destruct (str_in n (eff_copy proj cp) && skip (loc ++ [n])); [constructor|].
+           rewrite Forall_forall in IH.
+           apply (IH _ Hin n des eq_refl (loc ++ [n]) (Hwf _ Hin)).
+      * intros n1 n2 _ _ Hne p H1 H2.
+        apply spec_contrib_shape in H1 as [_ [[M1 E1]|(r1 & R1 & E1)]]; auto;
+          apply spec_contrib_shape in H2 as [_ [[M2 E2]|(r2 & R2 & E2)]]; auto;
+          subst p; apply app_inv_head in E2.
+        -- injection E2 as E2. apply Hne. symmetry. now apply html_name_inj.
+        -- injection E2 as _ E2. congruence.
+        -- injection E2 as _ E2. congruence.
+        -- injection E2 as E2 _. congruence.
+  - intros p [<-|H]; simpl.
+    + exists [s "index.html"]. split; [discriminate|reflexivity].
+    + simpl in H. apply in_map_iff in H as ([a b] & Hb & H). simpl in Hb. subst b.
+      apply in_flat_map in H as (n & _ & H).
+      apply (in_map snd) in H. simpl in H.
+      apply spec_contrib_shape in H as [_ [[_ H]|(r & Hr & H)]]; auto; subst p.
+      * exists [html_name n]. split; [discriminate|reflexivity].
+      * exists (n :: r). split; [discriminate|reflexivity].
+Qed.
+
+(* ------------------------------------------------------------------------------------------ *)
+(* C17_order: the sub-pages of a node, in order *)
+Local Arguments gpt : simpl never.
+Lemma gpt_node_fields proj pc loc d es nd :
+  gpt proj pc loc (Dir d es) = RNode nd ->
+  n_name nd = d /\ n_file nd = idx /\ n_loc nd = loc.
+Proof.
+  rewrite gpt_dir. destruct (titled_index es) as [[ord cp]|]; [|discriminate].
+  cbv zeta. destruct (v_err _); [discriminate|]. intros [= <-]. auto.
+Qed.
+
+Lemma visit_yields proj pc loc es copy n :
+  match visit_name proj pc loc es
+          (map (fun x => (ename x, gpt proj (Some copy) (loc ++ [ename x]) x)) es) n with
+  | VSub x => n_name x = n /\ yields_page proj pc loc es copy n = true
+  | _ => yields_page proj pc loc es copy n = false
+  end.
+Proof.
+  unfold yields_page.
+  destruct (visible n) eqn:Hvis.
+  2:{ destruct (visit_name_invis proj pc loc es
+         (map (fun x => (ename x, gpt proj (Some copy) (loc ++ [ename x]) x)) es) n Hvis)
+        as [-> | ->]; reflexivity. }
+  rewrite visit_name_vis by auto. rewrite assoc_map_find. simpl andb.
+  destruct (find_entry n es) as [x|] eqn:FE; [|reflexivity].
+  apply find_entry_name in FE as [En Hin]. simpl option_map.
+  destruct x as [f t o c|dn des]; simpl in En; subst.
+  - destruct (is_md n); [|reflexivity]. destruct t; simpl; auto.
+  - simpl ename. destruct (in_opt n pc); [reflexivity|]. simpl negb. simpl andb.
+    destruct (gpt proj (Some copy) (loc ++ [n]) (Dir n des)) as [| |nd] eqn:G; simpl; try reflexivity.
+    apply gpt_node_fields in G as [G _]. auto.
+Qed.
+
+Lemma subs_names proj pc loc es copy l :
+  map n_name
+      (v_subs (map (visit_name proj pc loc es
+                      (map (fun x => (ename x, gpt proj (Some copy) (loc ++ [ename x]) x)) es)) l))
+  = filter (yields_page proj pc loc es copy) l.
+Proof.
+  induction l as [|n l IH]; simpl; auto.
+  unfold v_subs in *. simpl. rewrite map_app, IH.
+  pose proof (visit_yields proj pc loc es copy n) as H.
+  destruct (visit_name _ _ _ _ _ n); try (rewrite H; reflexivity).
+  destruct H as [H1 H2]. rewrite H2. simpl. now rewrite H1.
+Qed.
+
+Theorem order_model proj pc loc d es nd :
+  NoDup (map ename es) ->
+  gpt proj pc loc (Dir d es) = RNode nd ->
+  map n_name (n_subs nd)
+  = filter (yields_page proj pc loc es (n_copy nd)) (dedup (n_ordered nd ++ listing es)).
+Proof.
+  intros Hnd. rewrite gpt_dir. destruct (titled_index es) as [[ord cp]|]; [|discriminate].
+  cbv zeta. destruct (v_err _); [discriminate|]. intros [= <-]. simpl.
+  rewrite subs_names. now rewrite merged_dedup by now apply listing_nodup.
+Qed.
+
+(* ------------------------------------------------------------------------------------------ *)
+(* C17_bad_page_isolated *)
+Local Arguments str_eqb : simpl never.
+Lemma gpt_file proj pc loc n t o c : gpt proj pc loc (File n t o c) = RNone.
+Proof. reflexivity. Qed.
+
+Lemma find_entry_replace_other n b X X' a :
+  ename X = ename X' -> n <> ename X ->
+  find_entry n (b ++ X' :: a) = find_entry n (b ++ X :: a).
+Proof.
+  intros E Hn. induction b as [|y b IH]; simpl.
+  - rewrite <- E. assert (str_eqb n (ename X) = false) as -> by now apply str_eqb_neq.
+    reflexivity.
+  - now rewrite IH.
+Qed.
+
+Lemma find_entry_replace_same b X a :
+  ~ In (ename X) (map ename b) -> find_entry (ename X) (b ++ X :: a) = Some X.
+Proof.
+  induction b as [|y b IH]; simpl; intros H.
+  - now rewrite str_eqb_refl.
+  - assert (str_eqb (ename X) (ename y) = false) as ->.
+    { apply str_eqb_neq. intros E. apply H. now left. }
+    apply IH. intros H'. apply H. now right.
+Qed.
+
+Lemma names_replace b X X' a :
+  ename X = ename X' -> map ename (b ++ X' :: a) = map ename (b ++ X :: a).
+Proof. intros E. rewrite !map_app. simpl. now rewrite E. Qed.
+
+Lemma listing_replace b X X' a :
+  ename X = ename X' -> listing (b ++ X' :: a) = listing (b ++ X :: a).
+Proof. intros E. unfold listing. now rewrite (names_replace b X X' a E). Qed.
+
+Lemma visit_name_invis_eq proj pc loc es sub es' sub' n :
+  visible n = false ->
+  visit_name proj pc loc es' sub' n = visit_name proj pc loc es sub n.
+Proof.
+  unfold visible, visit_name. destruct n; auto.
+  destruct (hidden (a :: n)); auto. destruct (backup (a :: n)); auto. discriminate.
+Qed.
+
+(* how replacing one entry of a directory changes the visits *)
+Definition vmap (dn : str) (g : node -> node) (v : visit) : visit :=
+  match v with
+  | VSub x => VSub (if str_eqb (n_name x) dn then g x else x)
+  | _ => v
+  end.
+
+Lemma v_err_vmap dn g vs : v_err (map (vmap dn g) vs) = v_err vs.
+Proof.
+  unfold v_err. induction vs as [|v vs IH]; simpl; auto. rewrite IH. now destruct v.
+Qed.
+Lemma v_files_vmap dn g vs : v_files (map (vmap dn g) vs) = v_files vs.
+Proof.
+  unfold v_files. induction vs as [|v vs IH]; simpl; auto. rewrite IH. now destruct v.
+Qed.
+Lemma v_subs_vmap dn g vs :
+  v_subs (map (vmap dn g) vs) = map (fun x => if str_eqb (n_name x) dn then g x else x) (v_subs vs).
+Proof.
+  unfold v_subs. induction vs as [|v vs IH]; simpl; auto.
+  rewrite IH, map_app. now destruct v.
+Qed.
+
+Lemma titled_index_dir_replace b X X' a :
+  ename X = ename X' ->
+  (forall n t o c, X <> File n t o c) -> (forall n t o c, X' <> File n t o c) ->
+  titled_index (b ++ X' :: a) = titled_index (b ++ X :: a).
+Proof.
+  intros E HX HX'. unfold titled_index.
+  destruct (str_eqb idx (ename X)) eqn:Ei.
+  - apply str_eqb_eq in Ei.
+    induction b as [|y b IH]; simpl.
+    + rewrite <- E, <- Ei, str_eqb_refl.
+      destruct X as [n t o c|? ?]; [exfalso; eapply HX; eauto|].
+      destruct X' as [n t o c|? ?]; [exfalso; eapply HX'; eauto|]. reflexivity.
+    + destruct (str_eqb idx (ename y)); auto.
+  - apply str_eqb_neq in Ei. now rewrite (find_entry_replace_other idx b X X' a E Ei).
+Qed.
+
+Lemma frame_congr proj g d b a D D' :
+  ename D = ename D' ->
+  (forall n t o c, D <> File n t o c) -> (forall n t o c, D' <> File n t o c) ->
+  ~ In (ename D) (map ename b) ->
+  (forall pc loc, gpt proj pc loc D' = res_map g (gpt proj pc loc D)) ->
+  forall pc loc,
+    gpt proj pc loc (Dir d (b ++ D' :: a))
+    = res_map (map_sub (ename D) g) (gpt proj pc loc (Dir d (b ++ D :: a))).
+Proof.
+  intros E HD HD' Hb Hg pc loc.
+  rewrite !gpt_dir, (titled_index_dir_replace b D D' a E HD HD').
+  destruct (titled_index (b ++ D :: a)) as [[ord cp]|]; [|reflexivity].
+  cbv zeta. rewrite (listing_replace b D D' a E).
+  set (copy := eff_copy proj cp).
+  set (M := merged (ordered_of ord) (listing (b ++ D :: a))).
+  set (es := b ++ D :: a). set (es' := b ++ D' :: a).
+  set (sub := map (fun x => (ename x, gpt proj (Some copy) (loc ++ [ename x]) x)) es).
+  set (sub' := map (fun x => (ename x, gpt proj (Some copy) (loc ++ [ename x]) x)) es').
+  assert (HV : forall n, visit_name proj pc loc es' sub' n
+                         = vmap (ename D) g (visit_name proj pc loc es sub n)).
+  { intros n. destruct (visible n) eqn:Hvis.
+    2:{ rewrite (visit_name_invis_eq proj pc loc es sub es' sub' n Hvis).
+        destruct (visit_name_invis proj pc loc es sub n Hvis) as [-> | ->]; reflexivity. }
+    pose proof (visit_yields proj pc loc es copy n) as HY. fold sub in HY.
+    rewrite !visit_name_vis in * by auto.
+    unfold sub, sub' in *. rewrite !assoc_map_find in *.
+    destruct (str_eqb n (ename D)) eqn:En.
+    - apply str_eqb_eq in En. subst n. unfold es, es' in *.
+      destruct D as [? ? ? ?|dn des]; [exfalso; eapply HD; eauto|].
+      destruct D' as [? ? ? ?|dn' des']; [exfalso; eapply HD'; eauto|].
+      simpl in E. subst dn'. simpl ename in *.
+      pose proof (find_entry_replace_same b (Dir dn des) a Hb) as F1. simpl ename in F1.
+      rewrite F1 in *.
+      pose proof (find_entry_replace_same b (Dir dn des') a Hb) as F2. simpl ename in F2.
+      rewrite F2.
+      simpl option_map in *. simpl ename in *.
+      destruct (in_opt dn pc); [reflexivity|].
+      rewrite Hg.
+      destruct (gpt proj (Some copy) (loc ++ [dn]) (Dir dn des)) as [| |x] eqn:G; simpl; auto.
+      apply gpt_node_fields in G as [G _]. rewrite G, str_eqb_refl. reflexivity.
+    - apply str_eqb_neq in En. unfold es, es' in *.
+      rewrite (find_entry_replace_other n b D D' a E En).
+      destruct (find_entry n (b ++ D :: a)) as [x|]; [|reflexivity].
+      simpl option_map in *.
+      destruct x as [f t o c|dn des].
+      + destruct (is_md n); [|reflexivity]. destruct t; [|reflexivity].
+        simpl. destruct HY as [HY _]. simpl in HY.
+        assert (str_eqb n (ename D) = false) as -> by now apply str_eqb_neq. reflexivity.
+      + destruct (in_opt n pc); [reflexivity|].
+        destruct (gpt proj (Some copy) (loc ++ [ename (Dir dn des)]) (Dir dn des)) as [| |x];
+          try reflexivity.
+        simpl. destruct HY as [HY _]. rewrite HY.
+        assert (str_eqb n (ename D) = false) as -> by now apply str_eqb_neq. reflexivity. }
+  rewrite (map_ext _ _ HV), <- map_map, v_err_vmap, v_files_vmap, v_subs_vmap.
+  destruct (v_err _); reflexivity.
+Qed.
+
+Definition vfilter (f : str) (v : visit) : visit :=
+  match v with
+  | VSub x => if str_eqb (n_name x) f then VSkip else VSub x
+  | _ => v
+  end.
+Lemma v_err_vfilter f vs : v_err (map (vfilter f) vs) = v_err vs.
+Proof.
+  unfold v_err. induction vs as [|v vs IH]; simpl; auto. rewrite IH.
+  destruct v; simpl; auto. now destruct (str_eqb (n_name n) f).
+Qed.
+Lemma v_files_vfilter f vs : v_files (map (vfilter f) vs) = v_files vs.
+Proof.
+  unfold v_files. induction vs as [|v vs IH]; simpl; auto. rewrite IH.
+  destruct v; simpl; auto. now destruct (str_eqb (n_name n) f).
+Qed.
+Lemma v_subs_vfilter f vs :
+  v_subs (map (vfilter f) vs) = filter (fun x => negb (str_eqb (n_name x) f)) (v_subs vs).
+Proof.
+  unfold v_subs. induction vs as [|v vs IH]; simpl; auto.
+  rewrite IH, filter_app. destruct v; simpl; auto. now destruct (str_eqb (n_name n) f).
+Qed.
+
+Theorem bad_page_isolated_dir proj pc loc nm es1 es2 f o c o' c' :
+  f <> idx -> ~ In f (map ename es1) ->
+  gpt proj pc loc (Dir nm (es1 ++ File f false o c :: es2))
+  = res_map (remove_sub f) (gpt proj pc loc (Dir nm (es1 ++ File f true o' c' :: es2))).
+Proof.
+  intros Hf Hb.
+  set (X := File f true o' c'). set (X' := File f false o c).
+  assert (E : ename X = ename X') by reflexivity.
+  rewrite !gpt_dir.
+  assert (TI : titled_index (es1 ++ X' :: es2) = titled_index (es1 ++ X :: es2)).
+  { unfold titled_index. rewrite (find_entry_replace_other idx es1 X X' es2 E); auto. }
+  rewrite TI. destruct (titled_index (es1 ++ X :: es2)) as [[ord cp]|]; [|reflexivity].
+  cbv zeta. rewrite (listing_replace es1 X X' es2 E).
+  set (copy := eff_copy proj cp).
+  set (M := merged (ordered_of ord) (listing (es1 ++ X :: es2))).
+  set (es := es1 ++ X :: es2). set (es' := es1 ++ X' :: es2).
+  set (sub := map (fun x => (ename x, gpt proj (Some copy) (loc ++ [ename x]) x)) es).
+  assert (Hsub : map (fun x => (ename x, gpt proj (Some copy) (loc ++ [ename x]) x)) es' = sub).
+  { unfold sub, es, es'. rewrite !map_app. reflexivity. }
+  rewrite Hsub.
+  assert (HV : forall n, visit_name proj pc loc es' sub n
+                         = vfilter f (visit_name proj pc loc es sub n)).
+  { intros n. destruct (visible n) eqn:Hvis.
+    2:{ rewrite (visit_name_invis_eq proj pc loc es sub es' sub n Hvis).
+        destruct (visit_name_invis proj pc loc es sub n Hvis) as [-> | ->]; reflexivity. }
+    pose proof (visit_yields proj pc loc es copy n) as HY. fold sub in HY.
+    rewrite !visit_name_vis in * by auto.
+    destruct (str_eqb n f) eqn:En.
+    - apply str_eqb_eq in En. subst n. unfold es, es' in *.
+      pose proof (find_entry_replace_same es1 X es2 Hb) as F1.
+      pose proof (find_entry_replace_same es1 X' es2 Hb) as F2.
+      simpl ename in F1, F2. rewrite F1, F2. unfold X, X'.
+      destruct (is_md f); [|reflexivity]. simpl. now rewrite str_eqb_refl.
+    - apply str_eqb_neq in En. unfold es, es' in *.
+      rewrite (find_entry_replace_other n es1 X X' es2 E En).
+      destruct (find_entry n (es1 ++ X :: es2)) as [x|]; [|reflexivity].
+      destruct x as [f0 t o0 c0|dn des].
+      + destruct (is_md n); [|reflexivity]. destruct t; [|reflexivity].
+        simpl. assert (str_eqb n f = false) as -> by now apply str_eqb_neq. reflexivity.
+      + destruct (in_opt n pc); [reflexivity|].
+        destruct (assoc_get n sub) as [[| |x]|]; try reflexivity.
+        simpl. destruct HY as [HY _]. rewrite HY.
+        assert (str_eqb n f = false) as -> by now apply str_eqb_neq. reflexivity. }
+  rewrite (map_ext _ _ HV), <- map_map, v_err_vfilter, v_files_vfilter, v_subs_vfilter.
+  destruct (v_err _); reflexivity.
+Qed.
+
+Lemma plug_is_dir ctx nm es : exists es', plug ctx (Dir nm es) = Dir (hole_name ctx nm) es'.
+Proof. destruct ctx as [|[d b a] ctx]; simpl; eauto. Qed.
+
+Theorem bad_page_isolated_tree proj ctx nm es1 es2 f o c o' c' :
+  f <> idx -> ~ In f (map ename es1) -> ctx_ok ctx nm = true ->
+  forall pc loc,
+    gpt proj pc loc (plug ctx (Dir nm (es1 ++ File f false o c :: es2)))
+    = res_map (prune (ctx_path ctx nm) f)
+              (gpt proj pc loc (plug ctx (Dir nm (es1 ++ File f true o' c' :: es2)))).
+Proof.
+  intros Hf Hb. induction ctx as [|[d b a] ctx IH]; intros Hok pc loc.
+  - simpl. now apply bad_page_isolated_dir.
+  - simpl in Hok. apply andb_true_iff in Hok as [H1 H2].
+    apply negb_true_iff, str_in_false in H1.
+    simpl plug. simpl ctx_path. simpl prune.
+    destruct (plug_is_dir ctx nm (es1 ++ File f false o c :: es2)) as [e1 E1].
+    destruct (plug_is_dir ctx nm (es1 ++ File f true o' c' :: es2)) as [e2 E2].
+    specialize (IH H2). rewrite E1, E2 in *.
+    change (hole_name ctx nm) with (ename (Dir (hole_name ctx nm) e2)) at 1.
+    apply frame_congr; auto; try discriminate.
+Qed.
+
+(* ------------------------------------------------------------------------------------------ *)
+(* writing out: files only ever get added *)
+Definition has (p : list str) (st : fs) : Prop := In p (map fst (f_files st)).
+Definition grows (st st' : fs) : Prop := forall p, has p st -> has p st'.
+
+Lemma path_eqb_eq a b : path_eqb a b = true <-> a = b.
+Proof. apply list_eqb_eq. apply str_eqb_eq. Qed.
+
+Lemma file_at_has p l : (exists o, file_at p l = Some o) <-> In p (map fst l).
+Proof.
+  induction l as [|[q o] l IH]; simpl.
+  - split; [intros [? H]; discriminate|tauto].
+  - destruct (path_eqb p q) eqn:E.
+    + apply path_eqb_eq in E. subst. split; eauto.
+    + rewrite IH. split; auto. intros [H|H]; auto. subst.
+      assert (path_eqb p p = true) by now apply path_eqb_eq. congruence.
+Qed.
+
+Lemma grows_refl st : grows st st.
+Proof. intros p H. exact H. Qed.
+Lemma grows_trans a b c : grows a b -> grows b c -> grows a c.
+Proof. intros H1 H2 p H. auto. Qed.
+
+Lemma grows_mkdir p st : grows st (mkdir p st).
+Proof. unfold mkdir. destruct (dir_exists p st); intros q H; exact H. Qed.
+Lemma grows_add_file p o st : grows st (add_file p o st).
+Proof. intros q H. unfold has, add_file. simpl. now right. Qed.
+Lemma has_add_file p o st : has p (add_file p o st).
+Proof. unfold has, add_file. simpl. now left. Qed.
+Lemma grows_copy_file loc st f : grows st (copy_file loc st f).
+Proof. apply grows_add_file. Qed.
+Lemma grows_copy_item root loc st item : grows st (copy_item root loc st item).
+Proof.
+  unfold copy_item. destruct (dir_at loc root) as [es|]; [|apply grows_refl].
+  destruct (find_entry item es) as [[? ? ? ?|d sub]|]; try apply grows_refl.
+  destruct (dir_exists (loc ++ [item]) st); [apply grows_refl|].
+  intros q H. unfold has. simpl. rewrite map_app, in_app_iff. now right.
+Qed.
+
+Lemma grows_fold {A} (f : fs -> A -> fs) l :
+  (forall st x, grows st (f st x)) -> forall st, grows st (fold_left f l st).
+Proof.
+  intros Hf. induction l as [|x l IH]; intros st; simpl; [apply grows_refl|].
+  eapply grows_trans; [apply Hf|apply IH].
+Qed.
+
+Lemma grows_write_node root st n : grows st (write_node root st n).
+Proof.
+  unfold write_node.
+  eapply grows_trans; [|apply grows_fold; apply grows_copy_file].
+  eapply grows_trans; [|apply grows_fold; apply grows_copy_item].
+  eapply grows_trans; [|apply grows_add_file].
+  destruct (is_index_file (n_file n)); [apply grows_mkdir|apply grows_refl].
+Qed.
+
+Lemma grows_write_nodes root ns st : grows st (write_nodes root ns st).
+Proof. apply grows_fold. intros. apply grows_write_node. Qed.
+
+Lemma has_fold_copy_file loc fl f : In f fl -> forall st, has (loc ++ [f]) (fold_left (copy_file loc) fl st).
+Proof.
+  induction fl as [|g fl IH]; intros H st; [destruct H|]. destruct H as [->|H]; simpl.
+  - apply (grows_fold (copy_file loc)); [intros; apply grows_copy_file|]. apply has_add_file.
+  - now apply IH.
+Qed.
+
+Lemma write_node_page root st n : has (out_path n) (write_node root st n).
+Proof.
+  unfold write_node.
+  apply (grows_fold (copy_file (n_loc n))); [intros; apply grows_copy_file|].
+  apply (grows_fold (copy_item root (n_loc n))); [intros; apply grows_copy_item|].
+  apply has_add_file.
+Qed.
+
+Lemma write_node_files root st n f : In f (n_files n) -> has (n_loc n ++ [f]) (write_node root st n).
+Proof. intros H. unfold write_node. now apply has_fold_copy_file. Qed.
+
+Lemma write_nodes_in root ns n :
+  In n ns -> forall st,
+    has (out_path n) (write_nodes root ns st) /\
+    forall f, In f (n_files n) -> has (n_loc n ++ [f]) (write_nodes root ns st).
+Proof.
+  unfold write_nodes. induction ns as [|m ns IH]; intros H st; [destruct H|].
+  destruct H as [->|H]; simpl.
+  - split; [|intros f Hf]; apply (grows_write_nodes root ns).
+    + apply write_node_page.
+    + now apply write_node_files.
+  - now apply IH.
+Qed.
+
+(* what sits at a path is a rendered page or the copy of the source file of that very path *)
+Definition origin_ok (po : list str * origin) : Prop :=
+  match snd po with Copy q => q = fst po | Page _ => True end.
+Definition origins_ok (st : fs) : Prop := Forall origin_ok (f_files st).
+
+Lemma origins_copy_item root loc st item : origins_ok st -> origins_ok (copy_item root loc st item).
+Proof.
+  unfold copy_item. intros H. destruct (dir_at loc root) as [es|]; auto.
+  destruct (find_entry item es) as [[? ? ? ?|d sub]|]; auto.
+  destruct (dir_exists (loc ++ [item]) st); auto.
+  unfold origins_ok. simpl. apply Forall_app. split; auto.
+  apply Forall_rev. apply Forall_forall. intros po Hpo.
+  apply in_map_iff in Hpo as (p & <- & _). reflexivity.
+Qed.
+
+Lemma origins_fold {A} (f : fs -> A -> fs) l :
+  (forall st x, origins_ok st -> origins_ok (f st x)) ->
+  forall st, origins_ok st -> origins_ok (fold_left f l st).
+Proof.
+  intros Hf. induction l as [|x l IH]; intros st H; simpl; auto.
+Qed.
+
+Lemma origins_write_node root st n : origins_ok st -> origins_ok (write_node root st n).
+Proof.
+  intros H. unfold write_node.
+  apply origins_fold. { intros s0 f H0. constructor; auto. reflexivity. }
+  apply origins_fold. { intros. now apply origins_copy_item. }
+  constructor; [exact I|].
+  destruct (is_index_file (n_file n)); auto. unfold mkdir. destruct (dir_exists _ _); auto.
+Qed.
+
+Lemma origins_writeout root r : origins_ok (writeout root r).
+Proof.
+  unfold writeout, write_nodes. apply origins_fold.
+  - intros. now apply origins_write_node.
+  - constructor.
+Qed.
+
+Lemma file_at_origin p l o :
+  Forall origin_ok l -> file_at p l = Some o -> o = Copy p \/ exists src, o = Page src.
+Proof.
+  induction 1 as [|[q o'] l Hq Hl IH]; simpl; [discriminate|].
+  destruct (path_eqb p q) eqn:E; auto.
+  intros [= <-]. apply path_eqb_eq in E. subst.
+  unfold origin_ok in Hq. simpl in Hq. destruct o'; eauto. left. now subst.
+Qed.
+
+Theorem pages_written root r n :
+  In n (res_nodes r) ->
+  exists o, file_at (out_path n) (f_files (writeout root r)) = Some o.
+Proof.
+  intros H. apply file_at_has. unfold writeout.
+  destruct (write_nodes_in root (res_nodes r) n H fs0) as [X _]. exact X.
+Qed.
+
+Theorem files_copied_beside root r n f :
+  In n (res_nodes r) -> In f (n_files n) ->
+  exists o, file_at (n_loc n ++ [f]) (f_files (writeout root r)) = Some o /\
+            (o = Copy (n_loc n ++ [f]) \/ exists src, o = Page src).
+Proof.
+  intros H Hf.
+  assert (X : exists o, file_at (n_loc n ++ [f]) (f_files (writeout root r)) = Some o).
+  { apply file_at_has. unfold writeout.
+    destruct (write_nodes_in root (res_nodes r) n H fs0) as [_ X]. exact (X f Hf). }
+  destruct X as [o Ho]. exists o. split; auto.
+  exact (file_at_origin _ _ _ (origins_writeout root r) Ho).
+Qed.
+
+(* ------------------------------------------------------------------------------------------ *)
+(* the other files of every page directory are among the files of the nodes *)
+Lemma in_merged ord es n :
+  NoDup (map ename es) -> In n (map ename es) -> n <> idx ->
+  In n (merged (ordered_of ord) (listing es)).
+Proof.
+  intros Hnd Hn Hi. rewrite order_documented by auto. apply filter_In. split.
+  - unfold spec_order. apply in_app_iff. destruct (str_in n ord) eqn:E.
+    + left. apply dedup_in. now apply str_in_iff.
+    + right. apply sort_in, filter_In. split; auto. now rewrite E.
+  - unfold not_idx. apply negb_true_iff, str_eqb_neq. congruence.
+Qed.
+
+Lemma in_v_files f vs : In (VFile f) vs -> In f (v_files vs).
+Proof. intros H. unfold v_files. apply in_flat_map. exists (VFile f). split; auto. now left. Qed.
+Lemma in_v_subs x vs : In (VSub x) vs -> In x (v_subs vs).
+Proof. intros H. unfold v_subs. apply in_flat_map. exists (VSub x). split; auto. now left. Qed.
+
+Lemma spec_copied_dir loc d es :
+  spec_copied loc (Dir d es) =
+  match titled_index es with
+  | None => []
+  | Some _ =>
+    map (fun x => loc ++ [ename x]) (filter plain_file es)
+      ++ flat_map (fun x => match x with
+                            | Dir n _ => if visible n then spec_copied (loc ++ [n]) x else []
+                            | File _ _ _ _ => []
+                            end) es
+  end.
+Proof. reflexivity. Qed.
+
+Lemma preorder_node a b c d e f subs :
+  preorder (Node a b c d e f subs) = Node a b c d e f subs :: flat_map preorder subs.
+Proof. reflexivity. Qed.
+
+Definition copied_at (proj : list str) (e : entry) : Prop :=
+  forall d es, e = Dir d es -> forall pc loc,
+    wf_tree e = true -> regular proj pc e = true -> gpt proj pc loc e <> RErr ->
+    forall p, In p (spec_copied loc e) ->
+    exists n f, In n (res_nodes (gpt proj pc loc e)) /\ In f (n_files n) /\ p = n_loc n ++ [f].
+
+Lemma copied_all proj e : copied_at proj e.
+Proof.
+  induction e as [|d0 es0 IH] using entry_ind'; intros d es E pc loc Hwf Hreg Hne p Hp;
+    [discriminate|].
+  injection E as -> ->.
+  rewrite spec_copied_dir in Hp. rewrite gpt_dir in *. simpl in Hreg.
+  destruct (titled_index es) as [[ord cp]|] eqn:TI; [|destruct Hp].
+  cbv zeta in *.
+  set (copy := eff_copy proj cp) in *.
+  set (sub := map (fun x => (ename x, gpt proj (Some copy) (loc ++ [ename x]) x)) es) in *.
+  set (M := merged (ordered_of ord) (listing es)) in *.
+  destruct (v_err (map (visit_name proj pc loc es sub) M)) eqn:VE; [congruence|].
+  apply wf_dir in Hwf as [Hnd Hwf].
+  unfold res_nodes. rewrite preorder_node.
+  apply in_app_iff in Hp as [Hp|Hp].
+  - (* a plain file of this directory *)
+    apply in_map_iff in Hp as (x & <- & Hx). apply filter_In in Hx as [Hin Hpl].
+    destruct x as [f t o c|]; [|discriminate]. simpl in Hpl. simpl ename.
+    apply andb_true_iff in Hpl as [Hvis Hmd].
+    rewrite <- is_md_spec in Hmd. apply negb_true_iff in Hmd.
+    assert (Hfi : f <> idx) by (intros ->; vm_compute in Hmd; discriminate).
+    assert (HM : In f M).
+    { apply in_merged; auto. change f with (ename (File f t o c)). now apply in_map. }
+    eexists. exists f. split; [left; reflexivity|]. split; [|reflexivity]. simpl.
+    apply in_v_files. apply in_map_iff. exists f. split; auto.
+    rewrite visit_name_vis by auto.
+    pose proof (find_entry_in es _ Hnd Hin) as FE. simpl in FE. rewrite FE. now rewrite Hmd.
+  - (* inside a sub-directory *)
+    apply in_flat_map in Hp as (x & Hin & Hp).
+    destruct x as [|n des]; [destruct Hp|].
+    destruct (visible n) eqn:Hvis; [|destruct Hp].
+    assert (TD : has_titled_index (Dir n des) = true).
+    { simpl. rewrite spec_copied_dir in Hp. destruct (titled_index des); auto; destruct Hp. }
+    pose proof (proj1 (forallb_forall _ _) Hreg _ Hin) as Hrx. simpl in Hrx.
+    change (match titled_index des with Some _ => true | None => false end)
+      with (has_titled_index (Dir n des)) in Hrx.
+    rewrite TD in Hrx. simpl in Hrx.
+    apply andb_true_iff in Hrx as [Hr1 Hr2]. apply andb_true_iff in Hr1 as [Hpc _].
+    apply negb_true_iff in Hpc.
+    pose proof (find_entry_in es _ Hnd Hin) as FE. simpl in FE.
+    assert (Hni : n <> idx).
+    { intros ->. unfold titled_index in TI. rewrite FE in TI. discriminate. }
+    assert (HM : In n M).
+    { apply in_merged; auto. change n with (ename (Dir n des)). now apply in_map. }
+    assert (HV : In (visit_name proj pc loc es sub n) (map (visit_name proj pc loc es sub) M))
+      by now apply in_map.
+    pose proof (v_err_false _ _ VE HV) as Hv.
+    rewrite visit_name_vis in HV, Hv by auto. rewrite FE, Hpc in HV, Hv.
+    unfold sub in HV, Hv. rewrite assoc_map_find, FE in HV, Hv. simpl in HV, Hv.
+    rewrite Forall_forall in IH.
+    assert (G : gpt proj (Some copy) (loc ++ [n]) (Dir n des) <> RErr).
+    { intros G. rewrite G in Hv. congruence. }
+    destruct (IH _ Hin n des eq_refl (Some copy) (loc ++ [n]) (Hwf _ Hin) Hr2 G p Hp)
+      as (nd & f & Hnd' & Hf & ->).
+    exists nd, f. split; [|auto].
+    destruct (gpt proj (Some copy) (loc ++ [n]) (Dir n des)) as [| |ndx];
+      [destruct Hnd'|destruct Hnd'|].
+    right. apply in_flat_map. exists ndx. split; [apply in_v_subs; exact HV|exact Hnd'].
+Qed.
+
+(* ------------------------------------------------------------------------------------------ *)
+(* C17_copy_subdir: which sub-directories are skipped *)
+
+(* as coded: a sub-directory is skipped exactly when the copy_subdir list of the *parent node*
+   (the index.md one level up from the directory being listed) names it *)
+Theorem skip_as_coded proj pc loc d es nd n des :
+  NoDup (map ename es) ->
+  gpt proj pc loc (Dir d es) = RNode nd ->
+  find_entry n es = Some (Dir n des) -> visible n = true -> n <> idx ->
+  (In n (map n_name (n_subs nd)) <->
+   in_opt n pc = false /\
+   exists x, gpt proj (Some (n_copy nd)) (loc ++ [n]) (Dir n des) = RNode x).
+Proof.
+  intros Hnd G FE Hvis Hni.
+  rewrite (order_model proj pc loc d es nd Hnd G), filter_In.
+  assert (HM : In n (dedup (n_ordered nd ++ listing es))).
+  { pose proof G as G'. rewrite gpt_dir in G'.
+    destruct (titled_index es) as [[ord cp]|]; [|discriminate]. cbv zeta in G'.
+    destruct (v_err _); [discriminate|]. injection G' as <-. simpl.
+    rewrite <- merged_dedup by now apply listing_nodup.
+    apply in_merged; auto. apply find_entry_name in FE as [_ FE].
+    change n with (ename (Dir n des)). now apply in_map. }
+  unfold yields_page. rewrite Hvis, FE. simpl andb.
+  destruct (in_opt n pc); simpl.
+  - split; [intros [_ H]; discriminate|intros [H _]; discriminate].
+  - destruct (gpt proj (Some (n_copy nd)) (loc ++ [n]) (Dir n des)) as [| |x].
+    + split; [intros [_ H]; discriminate|intros [_ [x H]]; discriminate].
+    + split; [intros [_ H]; discriminate|intros [_ [x H]]; discriminate].
+    + split; eauto.
+Qed.
+
+(* as documented: skipped exactly when the index.md of its own directory names it *)
+Definition skip_documented (proj : list str) (pc : option (list str)) (loc : list str)
+           (d : str) (es : list entry) (nd : node) (n : str) (des : list entry) : Prop :=
+  In n (map n_name (n_subs nd)) <->
+  str_in n (n_copy nd) = false /\
+  exists x, gpt proj (Some (n_copy nd)) (loc ++ [n]) (Dir n des) = RNode x.
+
+Definition copy_subdir_statement : Prop :=
+  forall proj pc loc d es nd n des,
+    NoDup (map ename es) ->
+    gpt proj pc loc (Dir d es) = RNode nd ->
+    find_entry n es = Some (Dir n des) -> visible n = true -> n <> idx ->
+    skip_documented proj pc loc d es nd n des.
+
+Theorem copy_subdir_partial proj pc loc d es nd n des :
+  NoDup (map ename es) ->
+  gpt proj pc loc (Dir d es) = RNode nd ->
+  find_entry n es = Some (Dir n des) -> visible n = true -> n <> idx ->
+  in_opt n pc = str_in n (n_copy nd) ->
+  skip_documented proj pc loc d es nd n des.
+Proof.
+  intros Hnd G FE Hvis Hni Hag. unfold skip_documented. rewrite <- Hag.
+  now apply (skip_as_coded proj pc loc d es nd n des).
+Qed.
+
+(* witnesses *)
+Definition T_ (n : string) : entry := File (s n) true [] [].
+Definition w_top_named : list entry :=
+  [File idx true [] [s "images"]; Dir (s "images") [T_ "index.md"; T_ "p.md"]].
+Definition w_gp : list entry :=
+  [File idx true [] [s "images"];
+   Dir (s "sub") [File idx true [] [s "other"];
+                  Dir (s "images") [T_ "index.md"; T_ "p.md"];
+                  Dir (s "other") [File (s "o.txt") false [] []]]].
+Definition w_dotted : list entry := [T_ "index.md"; T_ "v1.2.md"; T_ "v1.md"].
+
+Lemma copy_subdir_refuted : ~ copy_subdir_statement.
+Proof.
+  intros H.
+  destruct (page_tree [] w_top_named) as [| |nd] eqn:G; [vm_compute in G; discriminate ..|].
+  assert (X : skip_documented [] None [] [] w_top_named nd (s "images") [T_ "index.md"; T_ "p.md"]).
+  { apply H; auto.
+    - apply nodup_names_iff. reflexivity.
+    - intros E. vm_compute in E. discriminate. }
+  vm_compute in G. injection G as <-.
+  destruct X as [X _]. destruct X as [X _].
+  - vm_compute. left. reflexivity.
+  - vm_compute in X. discriminate.
+Qed.
+
+(* the same rule makes pages disappear: the grandparent's list is consulted *)
+Definition mirror_statement : Prop :=
+  forall skip proj es,
+    wf_tree (Dir [] es) = true -> page_tree proj es <> RErr ->
+    pages (page_tree proj es) = spec_pages skip proj [] (Dir [] es).
+
+Lemma mirror_refuted_copy_subdir :
+  exists es, wf_tree (Dir [] es) = true /\ gp_lost [] None (Dir [] es) = true /\
+             plain_names (Dir [] es) = true /\ page_tree [] es <> RErr /\
+             forall skip, pages (page_tree [] es) <> spec_pages skip [] [] (Dir [] es).
+Proof.
+  exists w_gp. repeat split; try reflexivity.
+  - intros H. vm_compute in H. discriminate.
+  - intros skip H. apply (f_equal (@length _)) in H. vm_compute in H. discriminate.
+Qed.
+
+Lemma mirror_refuted_dotted :
+  exists es, wf_tree (Dir [] es) = true /\ regular [] None (Dir [] es) = true /\
+             plain_names (Dir [] es) = false /\ page_tree [] es <> RErr /\
+             (forall skip, pages (page_tree [] es) <> spec_pages skip [] [] (Dir [] es)) /\
+             ~ NoDup (map snd (pages (page_tree [] es))).
+Proof.
+  exists w_dotted. repeat split; try reflexivity.
+  - intros H. vm_compute in H. discriminate.
+  - intros skip H. vm_compute in H. discriminate.
+  - intros H. vm_compute in H. inversion H as [|? ? H1 H2]; subst.
+    inversion H2 as [|? ? H3 H4]; subst. apply H3. now left.
+Qed.
+
+Theorem mirror_partial skip proj es :
+  wf_tree (Dir [] es) = true -> regular proj None (Dir [] es) = true ->
+  plain_names (Dir [] es) = true -> page_tree proj es <> RErr ->
+  pages (page_tree proj es) = spec_pages skip proj [] (Dir [] es).
+Proof. intros. unfold page_tree. now apply (mirror_all skip proj (Dir [] es) [] es eq_refl). Qed.
+
+Theorem pages_nodup proj es :
+  wf_tree (Dir [] es) = true -> regular proj None (Dir [] es) = true ->
+  plain_names (Dir [] es) = true -> page_tree proj es <> RErr ->
+  NoDup (map snd (pages (page_tree proj es))).
+Proof.
+  intros Hwf Hr Hp Hne.
+  rewrite (mirror_partial (fun _ => false) proj es Hwf Hr Hp Hne).
+  now apply (outs_ok_all (fun _ => false) proj (Dir [] es) [] es eq_refl []).
+Qed.
+
+(* ------------------------------------------------------------------------------------------ *)
+(* non-vacuity examples *)
+Definition ex_tree : list entry :=
+  [File (s "b.md") true [] []; File (s "notes.txt") false [] [];
+   File idx true [s "sub"; s "b.md"; s "sub"] [s "img"];
+   File (s "a.md") true [] []; File (s "bad.md") false [] []; File (s ".hidden.md") true [] [];
+   Dir (s "img") [File (s "x.png") false [] []];
+   Dir (s "sub") [File idx true [] []; File (s "deep.md") true [] [];
+                  Dir (s "more") [File idx true [] []; File (s "z.md") true [] []]]].
+
+Example ex_tree_hyps :
+  wf_tree (Dir [] ex_tree) = true /\ regular [] None (Dir [] ex_tree) = true /\
+  plain_names (Dir [] ex_tree) = true /\ page_tree [] ex_tree <> RErr /\
+  map snd (pages (page_tree [] ex_tree)) =
+  [[s "index.html"]; [s "sub"; s "index.html"]; [s "sub"; s "deep.html"];
+   [s "sub"; s "more"; s "index.html"]; [s "sub"; s "more"; s "z.html"];
+   [s "b.html"]; [s "a.html"]].
+Proof.
+  repeat split; try reflexivity. intros H. vm_compute in H. discriminate.
+Qed.
+
+Definition ex_ctx : list frame := [Frame [] [T_ "index.md"; T_ "a.md"] [T_ "t.md"]].
+Definition ex_hole (titled : bool) : entry :=
+  Dir (s "sub") ([T_ "index.md"] ++ File (s "bad.md") titled [] [] :: [T_ "ok.md"]).
+
+Example ex_isolated :
+  s "bad.md" <> idx /\ ~ In (s "bad.md") (map ename [T_ "index.md"]) /\
+  ctx_ok ex_ctx (s "sub") = true /\
+  map fst (pages (gpt [] None [] (plug ex_ctx (ex_hole true)))) =
+    [[s "index.md"]; [s "a.md"]; [s "sub"; s "index.md"]; [s "sub"; s "bad.md"];
+     [s "sub"; s "ok.md"]; [s "t.md"]] /\
+  map fst (pages (gpt [] None [] (plug ex_ctx (ex_hole false)))) =
+    [[s "index.md"]; [s "a.md"]; [s "sub"; s "index.md"]; [s "sub"; s "ok.md"]; [s "t.md"]].
+Proof.
+  repeat split; try reflexivity.
+  - intros H. vm_compute in H. discriminate.
+  - intros [H|[]]. vm_compute in H. discriminate.
 Qed.
